@@ -273,11 +273,22 @@ impl Net {
             self.max_backlog = pipe.chunks.len();
         }
         // line accounting
-        pipe.line_buf.extend_from_slice(data);
+        // (only the new bytes are searched: a line of many megabytes written in small pieces must not cost a scan of
+        //  everything before it per piece; what the accounting keeps of one line is capped at 1 MiB)
         let mut lines: Vec<String> = Vec::new();
-        while let Some(i) = pipe.line_buf.iter().position(|b| *b == b'\n') {
-            let l: Vec<u8> = pipe.line_buf.drain(..=i).collect();
-            lines.push(String::from_utf8_lossy(&l[..l.len() - 1]).to_string());
+        let mut start = 0usize;
+        for (i, b) in data.iter().enumerate() {
+            if *b == b'\n' {
+                let mut l: Vec<u8> = std::mem::take(&mut pipe.line_buf);
+                if l.len() < (1 << 20) {
+                    l.extend_from_slice(&data[start..i]);
+                }
+                lines.push(String::from_utf8_lossy(&l).to_string());
+                start = i + 1;
+            }
+        }
+        if pipe.line_buf.len() < (1 << 20) {
+            pipe.line_buf.extend_from_slice(&data[start..]);
         }
         let (fl, tl) = (pipe.from_label.clone(), pipe.to_label.clone());
         if split {
